@@ -16,7 +16,7 @@ LEVEL_TEXT = ('PARTIAL. Decided statically: for N=1 the forward and inverse quer
               'pair y = L + x(U-L), x = (y-L)/(U-L); the box->cube and cube->box transforms are algebraic inverses; '
               'both directions iterate the configured number of levels with the same radix, the inverse accumulating '
               'x += digit * B^-(j+1); GetInverseImage and GetPreimages have the same summaries; the inverse queries '
-              'establish a float working array. The evolvent keeps no process-wide state; the inverse queries make no exact equality test on a transformed coordinate. NOT decided: that the number rule mirrors the node rule for N >= 2.')
+              'establish a float working array. The evolvent keeps no process-wide state; the inverse queries make no exact equality test on a transformed coordinate and reject no point by a range test on it. NOT decided: that the number rule mirrors the node rule for N >= 2.')
 EXPLANATION = ('Path summaries of the two queries with N fixed to 1 are compared with the affine formulas by '
                'cross-multiplication; the composition of the two coordinate transforms is reduced to the identity; '
                'the per-level accumulation of the inverse descent is normalised for two levels; sibling agreement is '
@@ -50,9 +50,16 @@ def r09_1(ctx: Ctx):
         n = 0
         for p in C.normal_paths(ex.explore(fn, heap=heap)):
             n += 1
-            ce = C.call_event_of_result(p, p.value)
-            src = ce.d['args'][0] if ce is not None and ce.d['args'] else p.value
-            v = p.state.heap.get((key_of(src), ('[]', key_of(zero))))
+            # the returned array: a fresh array filled element by element on the path, or a value copy of the
+            # working array
+            v = p.state.heap.get((key_of(p.value), ('[]', key_of(zero)))) if p.value is not None else None
+            src = p.value
+            if v is None:
+                src = C.through_value_copies(p, p.value)
+                if src is p.value:
+                    ce = C.call_event_of_result(p, p.value)
+                    src = ce.d['args'][0] if ce is not None and ce.d['args'] else p.value
+                v = p.state.heap.get((key_of(src), ('[]', key_of(zero))))
             sa = src.single_atom() if isinstance(src, RF) else None
             if isinstance(sa, tuple) and len(sa) == 4 and sa[0] == 'attr' and sa[1] == key_of(selfv):
                 # whole-vector (vectorised) stores into the working array are read element-wise
@@ -64,6 +71,9 @@ def r09_1(ctx: Ctx):
             v = evo.expand_coefficients(ctx, rid, fn, v, selfv)
             if len(ctx.findings) > nf:
                 continue
+            if v is None:
+                raise AnalysisError(f'{rid}: element 0 of the array returned by {fn.short} ({C.fmt(p.value)}) cannot be '
+                                    f'read from the path; the N=1 image is not decided for this form of the return')
             ok = isinstance(v, RF) and C.strip_rf(v).equals(C.strip_rf(exp))
             if not ok:
                 evo.refuse_maintained_coefficients(ctx, rid, fn, v, selfv)
@@ -263,6 +273,74 @@ def r09_6(ctx: Ctx):
         ctx.ok(rid, 'inverse queries', f'{n} equality comparisons in {len(funcs)} functions of the inverse queries: none '
                                        f'on a value derived from the transformed point', e.cls.module.relpath)
     ctx.floor(rid, 'functions of the inverse queries scanned', len(funcs), 3)
+    # R09.7: a range test on the transformed coordinate that rejects the point.  |p| > 0.5 is true for in-box points on
+    # a face of about one box in three (the normalisation overshoots by an ulp): the query raises for a point of the
+    # box.  Validation belongs on the raw point against the raw bounds.
+    rid7 = 'R09.7'
+    ctx.rule(rid7, 'no raise / assert in the inverse queries is guarded by an ordering test (<, <=, >, >=) of a value '
+                   'derived from the transformed point against a numeric constant (expected count: 0)')
+    d2p = e.opt('inv', 'transform')
+    n7 = 0
+    for f in funcs:
+        selfn = f.param_names[0] if f.param_names and f.cls is not None else None
+        tainted = set(f.param_names[1:]) if f in roots else set()
+        first_transform = None
+        if d2p is not None and f is not d2p:
+            for c in ast.walk(f.node):
+                if isinstance(c, ast.Call) and d2p in ctx.pta.internal_callees(f, c):
+                    first_transform = min(first_transform or c.lineno, c.lineno)
+
+        def derived7(x) -> bool:
+            if isinstance(x, ast.Attribute) and isinstance(x.value, ast.Name) and x.value.id == selfn and \
+                    x.attr in scratch:
+                return True
+            if isinstance(x, ast.Name):
+                return x.id in tainted
+            return any(derived7(c) for c in ast.iter_child_nodes(x) if isinstance(c, ast.expr))
+        changed = True
+        while changed:
+            changed = False
+            for st in ast.walk(f.node):
+                if isinstance(st, ast.Assign) and len(st.targets) == 1 and isinstance(st.targets[0], ast.Name) and \
+                        st.targets[0].id not in tainted and derived7(st.value):
+                    tainted.add(st.targets[0].id)
+                    changed = True
+
+        def range_tests(test):
+            for c in ast.walk(test):
+                if isinstance(c, ast.Compare) and len(c.ops) == 1 and \
+                        isinstance(c.ops[0], (ast.Lt, ast.LtE, ast.Gt, ast.GtE)):
+                    l, r = c.left, c.comparators[0]
+                    for a, b in ((l, r), (r, l)):
+                        num = isinstance(b, ast.Constant) and isinstance(b.value, (int, float)) and \
+                            not isinstance(b.value, bool)
+                        neg = isinstance(b, ast.UnaryOp) and isinstance(b.operand, ast.Constant)
+                        if (num or neg) and derived7(a):
+                            yield c
+        for st in ast.walk(f.node):
+            guard = None
+            if isinstance(st, ast.If) and any(isinstance(x, ast.Raise) for b in st.body + st.orelse
+                                               for x in ast.walk(b)):
+                guard = st.test
+            elif isinstance(st, ast.Assert):
+                guard = st.test
+            if guard is None:
+                continue
+            n7 += 1
+            if f in roots and first_transform is None and d2p is not None:
+                continue            # the raw point, nothing transformed yet in this function
+            if first_transform is not None and st.lineno < first_transform:
+                continue            # before the transformation: a test of the raw point
+            for c in range_tests(guard):
+                ctx.fail(rid7, f.short, f.loc(st),
+                         f'`{ast.unparse(c)}` rejects the point by a range test on the transformed coordinate: the '
+                         f'normalisation (y - (U+L)/2)/(U-L) of a point on a face of the box overshoots 0.5 by one ulp '
+                         f'for about one box in three, so the inverse query raises for a point that is inside the box',
+                         key=f'{rid7}::{f.short}::{ast.unparse(c)[:40]}')
+    if not any(x.rule == rid7 for x in ctx.findings):
+        ctx.ok(rid7, 'inverse queries', f'{n7} guarded raise / assert statements in {len(funcs)} functions of the '
+                                        f'inverse queries: none tests the transformed point against a constant',
+               e.cls.module.relpath)
 
 
 def check(ctx: Ctx):
